@@ -5665,6 +5665,10 @@ class PyCdlib:
                           geometry_sectors, geometry_heads, part_type)
         self.isohybrid_mbr = tmp_isohybrid
 
+        # The hybrid data contains the location of the boot file, which is
+        # filled in when the extents are (re)assigned.
+        self._finish_add(0, 0)
+
     def rm_isohybrid(self):
         # type: () -> None
         """
